@@ -1,6 +1,6 @@
 ---- MODULE MC_ForkTwin ----
 EXTENDS ForkTwin, Json
-CONSTANT Depth
+CONSTANTS Depth, EmitDepth   \* histories are bounded by Depth; transitions are exported up to EmitDepth
 
 LogAppend(h, r) == Append(h, r)
 LogLast(h, r) == <<r>>
@@ -12,10 +12,10 @@ MCUniversesSim   == U!MCUniversesSim
 
 GenNext  == Len(hist) < Depth /\ Next
 GenSpec  == Init /\ [][GenNext]_vars
-EmitEdge == PrintT("@@B " \o ToJson(hist'))
+EmitEdge == (Len(hist') <= EmitDepth) => PrintT("@@B " \o ToJson(hist'))
 EmitFull == (Len(hist') = Depth) => PrintT("@@B " \o ToJson(hist'))
 \* only behaviours that contain a permuted group are worth replaying as twins
-EmitTwinEdge == (groups' > 0) => PrintT("@@B " \o ToJson(hist'))
+EmitTwinEdge == (groups' > 0 /\ Len(hist') <= EmitDepth) => PrintT("@@B " \o ToJson(hist'))
 EmitTwinFull == (Len(hist') = Depth /\ groups' > 0) => PrintT("@@B " \o ToJson(hist'))
 
 \* exhaustive checking within a depth bound (history kept only as a length counter)
@@ -26,7 +26,7 @@ BoundedNext ==
     /\ Len(hist) < Depth /\ hist' = Append(hist, 0)
     /\ \/ \E act \in One!Acts(sA) : (sA' = Step(sA, act).s /\ sB' = Step(sB, act).s /\ UNCHANGED groups)
        \/ \E act \in GroupActs(sA) :
-             /\ groups < MaxGroups /\ SameSet(act.oa, act.ob) /\ Ascending(act.oa) /\ act.oa # act.ob
+             /\ groups < MaxGroups
              /\ groups' = groups + 1 /\ sA' = RecvAll(sA, act.oa) /\ sB' = RecvAll(sB, act.ob)
 BoundedSpec == BoundedInit /\ [][BoundedNext]_vars
 ====
